@@ -13,8 +13,8 @@ CLAIMS['C11'] = {
   'design_ref': '§4 C11',
 }
 CLAIMS['C06'] = {
-  'text': "Contracts on the verbatim bodies of the harmonic and harmonic-walls restraint functions (potential, force, dU/dk, wall selection including the closest-wall rule for periodic variables) and of colvarbias_restraint_centers_moving::update / update_acc_work, discharged by CBMC dfcc with real arithmetic kept symbolic: each function returns exactly the documented expression over the variable's own (shortest-image) metric, the staged/continuous centre schedule advances as a function of the absolute step only (never on the repeated first step of a run segment), and accumulated work gets one force*increment term per variable on advancing steps inside the schedule.",
-  'note': "Real arithmetic is uninterpreted (term structure, not floating-point values); class colvar/colvarvalue are stand-ins; moving-centre tasks are bounded (2 variables, schedule length 10, 32-bit step numbers). n/d: linear/histogram restraints, ABMD, k_moving schedule, interpolation on manifolds, TI averages.",
+  'text': "Contracts on the verbatim bodies of the harmonic and harmonic-walls restraint functions (potential, force, dU/dk, wall selection including the closest-wall rule for periodic variables) and of colvarbias_restraint_centers_moving::update / update_acc_work, discharged by CBMC dfcc with real arithmetic kept symbolic: each function returns exactly the documented expression over the variable's own (shortest-image) metric, the staged/continuous centre schedule advances as a function of the absolute step only (never on the repeated first step of a run segment), and accumulated work gets one force*increment term per variable on advancing steps inside the schedule. colvarbias_restraint_k_moving::update / update_acc_work: continuous schedule k = k0 + (k1-k0)*lambda^e with lambda = (step-first)/n, increment k_new - k_old and ZERO after the schedule; staged schedule advances by one stage (resetting the TI accumulator) on stage boundaries but never on the repeated first step of a continued run; work += (sum dU/dk) * increment on advancing steps.",
+  'note': "Real arithmetic is uninterpreted (term structure, not floating-point values); class colvar/colvarvalue are stand-ins; moving-centre tasks are bounded (2 variables, schedule length 10, 32-bit step numbers). n/d: linear/histogram restraints, ABMD, interpolation on manifolds, TI averages (the TI accumulator is still incremented once more on a repeated step).",
   'design_ref': '§4 C06',
 }
 CLAIMS['C13'] = {
